@@ -35,8 +35,31 @@ CLAIM = {
              "(bare, parenthesised and negated operands), random trees to depth 6 with random spacing, and a malformed stream are run "
              "through the real parser and evaluator as posting amount, cost, lot price, balance assignment and Ledger::eval argument; "
              "the tree the implementation parsed is evaluated by the Lean reference semantics AND the text is evaluated by Python's own "
-             "expression grammar (a third, independent reading of precedence), and both must agree with what the implementation returned."),
-    "note": "rust_decimal arithmetic outside its exact range (non-terminating quotients, > 28 places, > 96 bits) is tagged and excluded from value comparison; winnow combinator semantics are modelled.",
+             "expression grammar (a third, independent reading of precedence), and both must agree with what the implementation returned. "
+             "The arithmetic underneath (`rust_decimal is modelled as exact rationals`) is pinned down: Model/Decimal96.lean transcribes the "
+             "algorithms of rust_decimal 1.37.1 (add/sub with the 32-bit fast path, aligned and unaligned 96-bit paths and the 192-bit buffer; "
+             "mul; div with find_scale / unscale; Buf24::rescale; round_dp_with_strategy; rescale; cmp; sign operations; try_from_i128_with_scale; "
+             "Display; from_str) over (sign flag, mantissa, scale) triples and is run against the REAL crate on every check, bit for bit "
+             "(gen/dec96.py: boundary-heavy operands around 2^32, 2^64, 2^96, scales 0..28, ties, overflow edges). Proved (Props/Decimal.lean, "
+             "val : D96 -> Rat): Decimal_add_exact / Decimal_sub_exact / Decimal_mul_exact (if the exact result is a decimal with max(sa,sb) "
+             "resp. sa+sb <= 28 places whose mantissa fits 96 bits, the crate returns exactly it, well-formed, with that scale; a zero operand "
+             "returns the other operand unchanged: Decimal_add_zero), Decimal_div_exact (a quotient that is a decimal with <= 28 places fitting "
+             "96 bits is returned exactly), Decimal_div_bound (EVERY quotient returned is within half a unit of its own last place: the rounding "
+             "of inexact quotients left open as F33), Decimal_mul_bound (every product returned is within half a unit of its last place), "
+             "Decimal_add_bound (so is every sum / difference, except under the decidable condition SubDefectD), Decimal_sum_exact / "
+             "Decimal_ledger_scale / Decimal_add_bounded / Decimal_mul_bounded (a concrete sufficient condition for `within the representable "
+             "range`: up to 10^6 amounts below 10^14 with <= 8 places add up exactly; one product of bounded factors is exact), "
+             "Decimal_round_is_roundHalfEven (round_dp_with_strategy(MidpointNearestEven) IS the roundHalfEven of the report-layer models, on "
+             "values), Decimal_round_laws / _half_unit / _ties_even, Decimal_rescale_laws, Decimal_sign_laws, Decimal_cmp / Decimal_cmp_val "
+             "(cmp and == compare values), Decimal_from_i128. NOT true and proved false: subtraction does not always round — "
+             "Decimal_sub_defect / not_sub_rounded: 34028236692093846346337460744 - 7922816251426433759.3543950335 yields "
+             "68056473376264876441248487728 in the crate (borrow loop of ops/add.rs unaligned_add) and in the model; okane prints that balance. "
+             "Decimal_mul_overflow / Decimal_add_overflow: + - * report Overflow only when the exact result, rounded to an integer, does not "
+             "fit 96 bits (for + - outside SubDefectD). Decimal_mul_scale_maximal / Decimal_rescale_maximal: the scale a rounded product keeps "
+             "is the largest at which the rounded mantissa fits (Buf24::rescale, shared with + and -). Not proved: the overflow "
+             "characterisation for division, that ties in + - * go to even (only the half-unit bound), and the Display/from_str round trip "
+             "(checked on the real crate on every run, not proved)."),
+    "note": "rust_decimal arithmetic outside its exact range (non-terminating quotients, > 28 places, > 96 bits) is tagged and excluded from value comparison in the expression streams; what it does there is now modelled and proved separately (Props/Decimal.lean). winnow combinator semantics are modelled.",
     "design_ref": "DESIGN.md section 6, C08",
 }
 
@@ -50,7 +73,22 @@ THEOREMS = ["Okane.C08.C08_eval", "Okane.C08.C08_eval_mut", "Okane.C08.C08_typin
             "Okane.C08.C08_parse_image", "Okane.C08.C08_parse_iff", "Okane.C08.not_C08_parse_wfOnly",
             "Okane.ExprParse.valueE_roundtrip", "Okane.ExprParse.addE_roundtrip", "Okane.ExprParse.parse_print",
             "Okane.ExprParse.parse_print_follow", "Okane.ExprParse.parse_print_prec", "Okane.ExprParse.text_injective",
-            "Okane.ExprParse.valueExpr_image", "Okane.ExprParse.follow_necessary", "Okane.ExprParse.plainV_rescale"]
+            "Okane.ExprParse.valueExpr_image", "Okane.ExprParse.follow_necessary", "Okane.ExprParse.plainV_rescale",
+            # rust_decimal pinned down (Props/Decimal.lean; model Model/Decimal96.lean tied to the real crate by gen/dec96.py)
+            "Okane.Decimal.Decimal_add_exact", "Okane.Decimal.Decimal_sub_exact", "Okane.Decimal.Decimal_add_zero",
+            "Okane.Decimal.Decimal_mul_exact", "Okane.Decimal.Decimal_div_bound", "Okane.Decimal.Decimal_div_by_zero",
+            "Okane.Decimal.Decimal_sum_exact", "Okane.Decimal.Decimal_ledger_scale", "Okane.Decimal.Decimal_add_bounded",
+            "Okane.Decimal.Decimal_mul_bounded", "Okane.Decimal.Decimal_round_laws", "Okane.Decimal.Decimal_round_half_unit",
+            "Okane.Decimal.Decimal_round_ties_even", "Okane.Decimal.Decimal_rescale_laws", "Okane.Decimal.Decimal_sign_laws",
+            "Okane.Decimal.Decimal_cmp", "Okane.Decimal.Decimal_from_i128", "Okane.Decimal.Decimal_sub_defect",
+            "Okane.Decimal.not_sub_rounded", "Okane.Decimal.Decimal_div_exact", "Okane.Decimal.Decimal_mul_bound",
+            "Okane.Decimal.Decimal_add_bound", "Okane.Decimal.Decimal_no_defect_small", "Okane.Decimal.Decimal_sub_defect_cond",
+            "Okane.Decimal.Decimal_round_is_roundHalfEven", "Okane.Decimal.Decimal_cmp_val",
+            "Okane.Decimal.Decimal_mul_overflow", "Okane.Decimal.Decimal_add_overflow",
+            "Okane.Decimal.Decimal_mul_scale_maximal", "Okane.Decimal.Decimal_rescale_maximal",
+            "Okane.Decimal.Decimal_rescale_up_val"]
+
+EXTRA_IMPORTS = ["Okane.Props.Decimal"]
 
 POSITIONS = ["eval", "amount", "cost", "lot", "balance"]
 LEAVES = ["0", "2", "3 A", "5 B"]
@@ -411,11 +449,12 @@ def run(chk_):
               "Ledger::eval argument, a fixed-stride sample as posting amount, cost, lot price and balance assignment; + random trees to "
               "depth 6 over 18 leaves (decimals, grouped numbers, 4 commodities, zero amounts) with random blanks/tabs, divisors mostly "
               "2^a*5^b; + ~12% malformed texts. Distinct = distinct (position, text); non-trivial = at least one operator.")
-    c.assumptions = ["rust_decimal is exact inside 96 bits / 28 places; cases leaving that range are tagged `inexact` by the oracle, "
-                     "compared for ok/error only, and counted",
+    c.assumptions = ["rust_decimal: the model Model/Decimal96.lean (not the crate's source) is what the Decimal theorems are about; it is tied to the "
+                     "real crate by the dec96 stream. In the expression streams cases leaving the exact range are tagged `inexact` by the "
+                     "oracle, compared for ok/error only, and counted",
                      "winnow's dispatch/peek/delimited/separated_foldl1/try_map semantics are modelled from the 0.7.6 sources",
                      "python's expression grammar is used as the reference reading of precedence and left associativity"]
-    if not standard_prologue(c, THEOREMS):
+    if not standard_prologue(c, THEOREMS, imports=EXTRA_IMPORTS):
         return
     quick = c.tier == "quick"
     cases = []   # (stream, pos, text, wellformed)
@@ -557,12 +596,39 @@ def run(chk_):
         if 0 <= i < len(lines):
             c.sample({"position": cases[i][1], "expr": cases[i][2], "impl": impl[i][:300], "model": model[i][:300]})
     cli_stream(c)
+    replay_f40(c)
     # expressions as posting amounts inside whole ledgers (declared precisions, histories, omitted counter-amounts): the
     # shared book-keeping stream, judged for the clauses it attributes to C08 (a written expression's booked amount)
     import bookstream
     recs = bookstream.run_stream(c, 400 if c.tier == "quick" else 8000, flavors=["expr", "expr-precision"], corpus=())
     bookstream.judge(c, recs, "C08")
     c.streams["ledgers with expression amounts (book-keeping stream)"] = len(recs)
+    # the arithmetic underneath: the Lean model of rust_decimal against the real crate, bit for bit
+    import dec96
+    dec96.run_stream(c, 40000 if c.tier == "quick" else 1500000)
+
+
+def replay_f40(c):
+    """known finding F40 (a defect of the rust_decimal crate, reachable from `okane primitive eval` and from a ledger): replay the
+    recorded witness on the real binary; reported only while it reproduces"""
+    import subprocess
+    for kf in c.known:
+        if kf["id"] != "F40":
+            continue
+        w = kf["witness"]
+        d = os.path.join(WORK, "C08", "cli")
+        os.makedirs(d, exist_ok=True)
+        path = os.path.join(d, "small.ledger")
+        open(path, "w").write(CLI_LEDGER)
+        p = subprocess.run([OKANE, "primitive", "eval", "--date", "2024-06-01", "-f", path, "--", w["expr"]],
+                           stdout=subprocess.PIPE, stderr=subprocess.PIPE, text=True, timeout=60)
+        m = re.search(r"(-?[0-9][0-9,]*(?:\.[0-9]+)?) A", p.stdout)
+        exact = Fraction("34028236692093846346337460744") - Fraction("7922816251426433759.3543950335")
+        c.streams["known-finding-replays"] = c.streams.get("known-finding-replays", 0) + 1
+        if p.returncode == 0 and m and abs(Fraction(m.group(1).replace(",", "")) - exact) > 1:
+            c.known_finding("F40", "`okane primitive eval -- '%s'` prints %s; the difference is %s (rust_decimal 1.37 subtraction, "
+                            "borrow loop of unaligned_add; dependency defect, see known_findings.json)"
+                            % (w["expr"], p.stdout.strip()[:60], "34028236684171030094911026984.6456049665"))
 
 
 def balanced_outer(t):
